@@ -232,13 +232,21 @@ func runC04(r *ev.Run) {
 				case 3: // groups (AND groups, and FilterGroup{Logic: OR} = any-of groups)
 					var groups [][]modelFilter
 					var fgs []*comet.FilterGroup
+					var pool []modelFilter // the same filter often occurs in several groups: (A and x>5) or (A and x<2)
 					for gi := 0; gi < 1+rng.IntN(3); gi++ {
 						var g []modelFilter
 						if rng.IntN(3) == 0 {
 							g = append(g, orGroupMarker())
 						}
 						for k := 0; k < 1+rng.IntN(4); k++ {
-							g = append(g, genLeaf(rng, m, absent && gi == 0 && k == 0))
+							if len(pool) > 0 && rng.IntN(3) == 0 {
+								g = append(g, pool[rng.IntN(len(pool))])
+								r.Count("probes:filter-repeated-across-groups", 1)
+								continue
+							}
+							f := genLeaf(rng, m, absent && gi == 0 && k == 0)
+							g = append(g, f)
+							pool = append(pool, f)
 						}
 						groups = append(groups, g)
 						fgs = append(fgs, cometGroup(g))
@@ -249,11 +257,17 @@ func runC04(r *ev.Run) {
 				case 4: // builder
 					qb := comet.NewMetadataFilterQuery()
 					var groups [][]modelFilter
+					var pool []modelFilter
 					for gi := 0; gi < 1+rng.IntN(3); gi++ {
 						var g []modelFilter
 						var fs []comet.Filter
 						for k := 0; k < 1+rng.IntN(3); k++ {
 							f := genLeaf(rng, m, false)
+							if len(pool) > 0 && rng.IntN(3) == 0 {
+								f = pool[rng.IntN(len(pool))]
+							} else {
+								pool = append(pool, f)
+							}
 							g = append(g, f)
 							fs = append(fs, f.impl)
 						}
